@@ -385,7 +385,7 @@ impl SemanticState {
         for key in crate::verif::reorder(
             crate::verif::Site::ExternValues,
             self.modules.keys().cloned().collect(),
-            |k: &ItemPath| k.to_string(),
+            crate::verif::path_key,
         ) {
             // Same call as the loop below, in scheduler order; that loop then finds
             // everything resolved already (or is not reached because of the same error).
